@@ -247,6 +247,16 @@ impl<H: Hasher> BatchMerkleProof<H> {
                 i += 1;
             }
         }
+        // make sure the proof does not contain anything that was not used to compute the root
+        if self.leaves.len() != index_map.len() {
+            return Err(MerkleTreeError::InvalidProof);
+        }
+        for (nodes, &pointer) in self.nodes.iter().zip(proof_pointers.iter()) {
+            if nodes.len() != pointer {
+                return Err(MerkleTreeError::InvalidProof);
+            }
+        }
+
         v.remove(&1).ok_or(MerkleTreeError::InvalidProof)
     }
 
